@@ -560,8 +560,13 @@ func runParent(p *Prop, tier string, seed int64) int {
 
 	if p.Post != nil {
 		if err := p.Post(m); err != nil {
-			fmt.Fprintf(os.Stderr, "HARNESS-ERROR property=%s vacuity/self-check: %v\n", p.ID, err)
-			return 2
+			if len(m.Violations) == 0 {
+				fmt.Fprintf(os.Stderr, "HARNESS-ERROR property=%s vacuity/self-check: %v\n", p.ID, err)
+				return 2
+			}
+			// an implementation that is broken badly enough makes the coverage counters collapse as well: the
+			// violations are the finding and are reported; the guard's message goes into the caps
+			m.Caps = append(m.Caps, "coverage self-check failed while violations were found: "+err.Error())
 		}
 	}
 
